@@ -1,11 +1,13 @@
 (* C12: a statement language with bind-variable holes, evaluated (a) with the bindings supplied at execution
    time, as Engine.QueryWithBindings / EXECUTE ... USING do, and (b) after textual substitution of the values
-   as literals.  Integer / NULL fragment with MySQL three-valued logic (truth values are 1 / 0 / NULL). *)
-From Coq Require Import List ZArith Bool.
+   as literals.  Values: NULL, integers, exact decimals, strings; MySQL three-valued logic (truth 1 / 0 / NULL). *)
+From Coq Require Import List ZArith NArith Bool String Ascii.
 Import ListNotations.
 Open Scope Z_scope.
 
-Inductive val := VNull | VInt (z : Z).
+(* value domain: NULL, integers (signed 64-bit and unsigned 64-bit literals both denote their integer), exact
+   decimals (unscaled value, scale), strings (byte strings; the default collation utf8mb4_0900_bin compares bytes) *)
+Inductive val := VNull | VInt (z : Z) | VDec (u : Z) (s : N) | VStr (s : string).
 
 (* operands of an IN list *)
 Inductive atom := ALit (v : val) | ABind (k : nat).
@@ -20,46 +22,110 @@ Inductive expr :=
 Definition row := list val.
 Definition bindings := list val.
 
-(* None = the statement fails: a bind variable without a value, or a column that does not exist *)
+(* None = the statement fails (a bind variable without a value, a column that does not exist) or the operation
+   is outside the modelled fragment (a string mixed with a number, a string used as a truth value) *)
 Definition vbool (b : bool) : val := VInt (if b then 1 else 0).
 
-Definition arith (f : Z -> Z -> Z) (x y : val) : val :=
-  match x, y with VInt a, VInt b => VInt (f a b) | _, _ => VNull end.
-Definition cmp (f : Z -> Z -> bool) (x y : val) : val :=
-  match x, y with VInt a, VInt b => vbool (f a b) | _, _ => VNull end.
-Definition nseq (x y : val) : val :=
+Definition pow10 (n : N) : Z := Z.pow 10 (Z.of_N n).
+
+(* numeric view: unscaled value and scale *)
+Definition num_of (v : val) : option (Z * N) :=
+  match v with VInt z => Some (z, 0%N) | VDec u s => Some (u, s) | _ => None end.
+
+(* both operands rescaled to the larger scale *)
+Definition align (a b : Z * N) : Z * Z * N :=
+  let s := N.max (snd a) (snd b) in
+  (fst a * pow10 (s - snd a), fst b * pow10 (s - snd b), s).
+
+(* + and -: integer when both are integers, else a decimal of the larger scale *)
+Definition arith (f : Z -> Z -> Z) (x y : val) : option val :=
   match x, y with
-  | VNull, VNull => vbool true
-  | VInt a, VInt b => vbool (a =? b)
-  | _, _ => vbool false
+  | VNull, _ | _, VNull => Some VNull
+  | VInt a, VInt b => Some (VInt (f a b))
+  | _, _ =>
+      match num_of x, num_of y with
+      | Some a, Some b => let '(p, q, s) := align a b in Some (VDec (f p q) s)
+      | _, _ => None
+      end
   end.
-Definition and3 (x y : val) : val :=
+
+Definition ceq (c : comparison) : bool := match c with Datatypes.Eq => true | _ => false end.
+Definition clt (c : comparison) : bool := match c with Datatypes.Lt => true | _ => false end.
+Definition cle (c : comparison) : bool := match c with Datatypes.Gt => false | _ => true end.
+
+(* three-way comparison: numbers by exact value, strings bytewise; a string against a number is not modelled *)
+Definition compare_val (x y : val) : option comparison :=
   match x, y with
-  | VInt 0, _ | _, VInt 0 => VInt 0
-  | VNull, _ | _, VNull => VNull
-  | _, _ => VInt 1
+  | VStr a, VStr b => Some (String.compare a b)
+  | _, _ =>
+      match num_of x, num_of y with
+      | Some a, Some b => let '(p, q, _) := align a b in Some (Z.compare p q)
+      | _, _ => None
+      end
   end.
-Definition or3 (x y : val) : val :=
+
+Definition cmp (g : comparison -> bool) (x y : val) : option val :=
   match x, y with
-  | VInt 0, VInt 0 => VInt 0
-  | VInt 0, VNull | VNull, VInt 0 | VNull, VNull => VNull
-  | _, _ => VInt 1
+  | VNull, _ | _, VNull => Some VNull
+  | _, _ => option_map (fun c => vbool (g c)) (compare_val x y)
   end.
-Definition not3 (x : val) : val := match x with VNull => VNull | VInt 0 => VInt 1 | VInt _ => VInt 0 end.
-Definition is_true (x : val) : bool := match x with VInt 0 | VNull => false | VInt _ => true end.
+
+Definition nseq (x y : val) : option val :=
+  match x, y with
+  | VNull, VNull => Some (vbool true)
+  | VNull, _ | _, VNull => Some (vbool false)
+  | _, _ => option_map (fun c => vbool (ceq c)) (compare_val x y)
+  end.
+
+(* truth value: Some None = NULL; strings as truth values are not modelled *)
+Definition truth (x : val) : option (option bool) :=
+  match x with
+  | VNull => Some None
+  | VInt z => Some (Some (negb (z =? 0)))
+  | VDec u _ => Some (Some (negb (u =? 0)))
+  | VStr _ => None
+  end.
+
+Definition and3 (x y : val) : option val :=
+  match truth x, truth y with
+  | Some (Some false), Some _ | Some _, Some (Some false) => Some (VInt 0)
+  | Some None, Some _ | Some _, Some None => Some VNull
+  | Some (Some true), Some (Some true) => Some (VInt 1)
+  | _, _ => None
+  end.
+Definition or3 (x y : val) : option val :=
+  match truth x, truth y with
+  | Some (Some true), Some _ | Some _, Some (Some true) => Some (VInt 1)
+  | Some None, Some _ | Some _, Some None => Some VNull
+  | Some (Some false), Some (Some false) => Some (VInt 0)
+  | _, _ => None
+  end.
+Definition not3 (x : val) : option val :=
+  match truth x with
+  | Some None => Some VNull
+  | Some (Some b) => Some (vbool (negb b))
+  | None => None
+  end.
+Definition is_true (x : val) : bool :=
+  match truth x with Some (Some true) => true | _ => false end.
 
 Definition eval_atom (bs : bindings) (a : atom) : option val :=
   match a with ALit v => Some v | ABind k => nth_error bs k end.
 
 (* x IN (l): NULL if x is NULL; 1 if some element equals x; else NULL if some element is NULL; else 0 *)
-Fixpoint in_list (x : val) (l : list val) (sawnull : bool) : val :=
+Fixpoint in_list (x : val) (l : list val) (sawnull : bool) : option val :=
   match l with
-  | [] => if sawnull then VNull else VInt 0
+  | [] => Some (if sawnull then VNull else VInt 0)
   | v :: l' =>
       match x, v with
-      | VNull, _ => VNull
+      | VNull, _ => Some VNull
       | _, VNull => in_list x l' true
-      | VInt a, VInt b => if a =? b then VInt 1 else in_list x l' sawnull
+      | _, _ =>
+          match compare_val x v with
+          | Some Datatypes.Eq => Some (VInt 1)
+          | Some _ => in_list x l' sawnull
+          | None => None
+          end
       end
   end.
 
@@ -69,8 +135,11 @@ Fixpoint eval_atoms (bs : bindings) (l : list atom) : option (list val) :=
   | a :: l' => match eval_atom bs a, eval_atoms bs l' with Some v, Some vs => Some (v :: vs) | _, _ => None end
   end.
 
-Definition bin (f : val -> val -> val) (x y : option val) : option val :=
-  match x, y with Some a, Some b => Some (f a b) | _, _ => None end.
+Definition bin (f : val -> val -> option val) (x y : option val) : option val :=
+  match x, y with Some a, Some b => f a b | _, _ => None end.
+
+Definition bind1 (f : val -> option val) (x : option val) : option val :=
+  match x with Some a => f a | None => None end.
 
 Fixpoint eval (bs : bindings) (r : row) (e : expr) : option val :=
   match e with
@@ -79,22 +148,22 @@ Fixpoint eval (bs : bindings) (r : row) (e : expr) : option val :=
   | Bind k => nth_error bs k
   | Add a b => bin (arith Z.add) (eval bs r a) (eval bs r b)
   | Sub a b => bin (arith Z.sub) (eval bs r a) (eval bs r b)
-  | Eq a b => bin (cmp Z.eqb) (eval bs r a) (eval bs r b)
-  | Lt a b => bin (cmp Z.ltb) (eval bs r a) (eval bs r b)
-  | Le a b => bin (cmp Z.leb) (eval bs r a) (eval bs r b)
+  | Eq a b => bin (cmp ceq) (eval bs r a) (eval bs r b)
+  | Lt a b => bin (cmp clt) (eval bs r a) (eval bs r b)
+  | Le a b => bin (cmp cle) (eval bs r a) (eval bs r b)
   | NsEq a b => bin nseq (eval bs r a) (eval bs r b)
   | And a b => bin and3 (eval bs r a) (eval bs r b)
   | Or a b => bin or3 (eval bs r a) (eval bs r b)
-  | Not a => option_map not3 (eval bs r a)
+  | Not a => bind1 not3 (eval bs r a)
   | IsNull a => option_map (fun v => match v with VNull => vbool true | _ => vbool false end) (eval bs r a)
   | InList a l =>
       match eval bs r a, eval_atoms bs l with
-      | Some x, Some vs => Some (in_list x vs false)
+      | Some x, Some vs => in_list x vs false
       | _, _ => None
       end
   | Between a lo hi =>
       match eval bs r a, eval bs r lo, eval bs r hi with
-      | Some x, Some l, Some h => Some (and3 (cmp Z.leb l x) (cmp Z.leb x h))
+      | Some x, Some l, Some h => bin and3 (cmp cle l x) (cmp cle x h)
       | _, _, _ => None
       end
   end.
